@@ -921,4 +921,61 @@ theorem ss_trav_sim (k : Nat) : ∀ (n : Nat) (s0 : SpooledStringIO.traverse.St)
           rw [← hs']
           simp [SpooledStringIO.traverse.loop1.body, h1I, h2I, hread, hrd.1, h3', hch1]
 
+theorem ss_trav_sim_of_eq (k n : Nat) (s0 s1 : SpooledStringIO.traverse.St) (fl : Flow Int) (s : SStr) (cur dest : Nat)
+    (heq : whileLoop SpooledStringIO.traverse.loop1.cond SpooledStringIO.traverse.loop1.body n s0 = (fl, s1))
+    (hr : RelS s0.self s) (hcur : s0.current_position = (cur : Int)) (hdest : s0.loc1 = (dest : Int)) (hle : cur ≤ dest)
+    (hok : travOk k s cur dest = true) (hk : k ≤ n) :
+    fl = .next ∧ RelS s1.self (SStr.traverse k s cur dest) ∧ s1.loc1 = (dest : Int) := by
+  obtain ⟨s', hs', hrel, hd⟩ := ss_trav_sim k n s0 s cur dest hr hcur hdest hle hok hk
+  rw [hs'] at heq
+  cases heq
+  exact ⟨rfl, hrel, hd⟩
+
+/-- `_traverse_codepoints(cur, n)`: `SStr.traverse` to `cur + n`; returns the destination -/
+theorem src_ss_traverse_eq_model (lfuel k : Nat) (st : SS) (s : SStr) (cur n : Nat) (h : RelS st s)
+    (hok : travOk k s cur (cur + n) = true) (hk : k ≤ lfuel) :
+    (SpooledStringIO.traverse lfuel st cur n).1 = .ok ((cur + n : Nat) : Int) ∧
+    RelS (SpooledStringIO.traverse lfuel st cur n).2 (SStr.traverse k s cur (cur + n)) := by
+  simp only [SpooledStringIO.traverse, SpooledStringIO.traverse.body, seq_apply, assign_apply, ret_apply]
+  split
+  · rename_i x s1 heq
+    obtain ⟨_, hrel, hd⟩ := ss_trav_sim_of_eq k lfuel _ _ _ s cur (cur + n) heq (by simpa using h) (by simp)
+      (by simp) (by omega) hok hk
+    exact ⟨by simp [hd], by simpa using hrel⟩
+  · rename_i x fl s1 hne heq
+    obtain ⟨hfl, _, _⟩ := ss_trav_sim_of_eq k lfuel _ _ _ s cur (cur + n) heq (by simpa using h) (by simp)
+      (by simp) (by omega) hok hk
+    exact absurd hfl hne
+
+theorem RelS.bseek0 {st : SS} {s : SStr} (h : RelS st s) :
+    RelS { st with buffer := { st.buffer with st := st.buffer.st.seek 0, rd := Reader.reset } } (s.bseek 0) :=
+  ⟨by simp [SStr.bseek, h.stream], by simp [SStr.bseek], h.opened, h.real, h.tell, h.max, h.chunk⟩
+
+/-- `seek(p)` (`os.SEEK_SET`): rewind the stream, reset the codec, traverse `p` code points, `_tell = p` — `SStr.seek` -/
+theorem src_ss_seek0_eq_model (lfuel : Nat) (st : SS) (s : SStr) (p : Nat) (h : RelS st s)
+    (hok : travOk (p + 1) (s.bseek 0) 0 p = true) (hk : p + 1 ≤ lfuel) :
+    (SpooledStringIO.seek0 lfuel st p).1 = .ok (p : Int) ∧ RelS (SpooledStringIO.seek0 lfuel st p).2 (s.seek p) := by
+  rcases st with ⟨⟨bst, brd, bcl, brl⟩, tl, ms, dir, ch⟩
+  have hcl : bcl = false := h.opened
+  subst hcl
+  have hb : RelS { buffer := ⟨bst.seek 0, Reader.reset, false, brl⟩, tell := tl, max_size := ms, dir := dir, chunk := ch }
+      (s.bseek 0) := h.bseek0
+  have ht := src_ss_traverse_eq_model lfuel (p + 1) _ (s.bseek 0) 0 p hb (by simpa using hok) hk
+  simp only [Nat.zero_add] at ht
+  rcases htr : SpooledStringIO.traverse lfuel
+      { buffer := ⟨bst.seek 0, Reader.reset, false, brl⟩, tell := tl, max_size := ms, dir := dir, chunk := ch }
+      ((0 : Nat) : Int) (p : Int) with ⟨r, st1⟩
+  rw [htr] at ht
+  simp only at ht
+  have hc1 : st1.buffer.closed = false := ht.2.opened
+  have hrel := ht.2
+  have ht0 : ((0 : Nat) : Int) = 0 := rfl
+  rw [ht0] at htr
+  refine ⟨?_, ?_⟩
+  · simp [SpooledStringIO.seek0, SpooledStringIO.seek0.body, src_ss_checkClosed_eq_model, CFile.seek,
+      htr, ht.1, src_ss_tell_eq_model, hc1]
+  · constructor <;>
+      simp [SpooledStringIO.seek0, SpooledStringIO.seek0.body, src_ss_checkClosed_eq_model, CFile.seek,
+        htr, ht.1, src_ss_tell_eq_model, hc1, SStr.seek, hrel.stream, hrel.reader, hrel.real, hrel.max, hrel.chunk]
+
 end C18
